@@ -265,25 +265,96 @@ def fig_graphs(repo: str) -> List[Tuple[str, Graph]]:
 
 
 # ---------------------------------------------------------------------------------------
+# labelling context: the SAME graph under other block names / dict insertion orders
+#
+# E(n) lists one graph per isomorphism class in BFS-canonical numbering, where the entry has the smallest name, a loop
+# header is (for reducible loops) the smallest name of its loop, and the dict is in BFS order.  The library looks at
+# names through sorted() and at dict order through iteration, so the properties, which quantify over ALL closed CFGs,
+# also quantify over every naming and every insertion order of each class.  A labelling is (prefix, perm, order):
+# block i is called prefix + str(perm[i]) and blocks are inserted in the sequence ``order``.  Only the relative order
+# of names can matter to sorted(), so name permutations (plus a prefix that sorts after the generator's own 'synth_...'
+# / '..._region_...' names) exhaust that dimension.
+
+_LAB: Optional[tuple] = None
+
+
+def set_labeling(lab) -> None:
+    global _LAB
+    if lab is None:
+        _LAB = None
+    else:
+        prefix, perm, order = lab
+        _LAB = (str(prefix), tuple(int(x) for x in perm), tuple(int(x) for x in order))
+
+
+def get_labeling() -> Optional[tuple]:
+    return _LAB
+
+
+def nm(i: int) -> str:
+    if _LAB is None:
+        return str(i)
+    return f"{_LAB[0]}{_LAB[1][i]}"
+
+
+def entry_name() -> str:
+    return nm(0)
+
+
+def _order(n: int):
+    return range(n) if _LAB is None else _LAB[2]
+
+
+def labelings(n: int, level: str) -> List[tuple]:
+    """Non-default labellings of an n-block graph.  level: 'all' | 'few' | 'one'."""
+    ident = tuple(range(n))
+    rev = tuple(reversed(ident))
+    out: List[tuple] = []
+    if n < 2:
+        return out
+    if level == "all":
+        for p in itertools.permutations(ident):
+            for o in (ident, rev):
+                if (p, o) != (ident, ident):
+                    out.append(("", p, o))
+        out.append(("x", ident, ident))
+        out.append(("x", rev, rev))
+    elif level == "few":
+        rot = tuple((i + 1) % n for i in ident)
+        out = [("", rev, ident), ("", ident, rev), ("x", rot, rev)]
+    elif level == "one":
+        out = [("x", rev, rev)]
+    return out
+
+
+def lab_tag(lab) -> str:
+    if lab is None:
+        return ""
+    return "~" + lab[0] + "".join(str(x) for x in lab[1]) + "/" + "".join(str(x) for x in lab[2]) if len(lab[1]) <= 10 \
+        else "~" + lab[0] + ".".join(str(x) for x in lab[1]) + "/" + ".".join(str(x) for x in lab[2])
+
+
+# ---------------------------------------------------------------------------------------
 # building library graphs from a Graph
 
 def names(g: Graph) -> List[str]:
-    return [str(i) for i in range(len(g))]
+    return [nm(i) for i in range(len(g))]
 
 
 def as_named(g: Graph) -> Dict[str, Tuple[str, ...]]:
-    return {str(i): tuple(str(t) for t in r) for i, r in enumerate(g)}
+    return {nm(i): tuple(nm(t) for t in g[i]) for i in _order(len(g))}
 
 
 def make_scfg(g: Graph, payload: str = "basic", rename: Optional[Dict[int, str]] = None):
     """Build a fresh library SCFG for graph g.  payload in {basic, bytecode, ast, ast_expr}."""
     from numba_scfg.core.datastructures.scfg import SCFG
     from numba_scfg.core.datastructures.basic_block import BasicBlock, PythonBytecodeBlock, PythonASTBlock
-    nm = (lambda i: rename[i]) if rename else (lambda i: str(i))
+    name_of = (lambda i: rename[i]) if rename else nm
     blocks = {}
-    for i, row in enumerate(g):
-        name = nm(i)
-        jt = tuple(nm(t) for t in row)
+    for i in (range(len(g)) if rename else _order(len(g))):
+        row = g[i]
+        name = name_of(i)
+        jt = tuple(name_of(t) for t in row)
         if payload == "basic":
             b = BasicBlock(name=name, _jump_targets=jt)
         elif payload == "bytecode":
